@@ -20,6 +20,7 @@ import (
 )
 
 type Engine struct {
+	searchK   int    // > 0 while generating for counterexample search (bounded unrolling)
 	repo      string // /repo/teamserver
 	fset      *token.FileSet
 	prog      *ssa.Program
@@ -515,6 +516,13 @@ type FuncResult struct {
 	Blocks   int
 }
 
+// GenerateSearch: the same function under bounded unrolling (counterexample search).
+func (e *Engine) GenerateSearch(fname string, sweep bool, k int) (*FuncResult, error) {
+	e.searchK = k
+	defer func() { e.searchK = 0 }()
+	return e.Generate(fname, sweep)
+}
+
 func (e *Engine) Generate(fname string, sweep bool) (*FuncResult, error) {
 	fn := e.funcs[fname]
 	if fn == nil {
@@ -529,6 +537,7 @@ func (e *Engine) Generate(fname string, sweep bool) (*FuncResult, error) {
 		params: map[string]*Val{}, varAt: map[string]ssa.Value{}, varAtBlock: map[*ssa.BasicBlock]map[string]ssa.Value{}, lastCall: map[string]*Val{}, lastCallBlock: map[*ssa.BasicBlock]map[string]*Val{}, lastArgs: map[string][]*Val{}, lastArgsBlock: map[*ssa.BasicBlock]map[string][]*Val{}, cutPhi: map[*ssa.Phi]*Val{}, closures: map[int]*closureInfo{},
 		tupleAddrs: map[ssa.Value]map[int]*AddrInfo{}, deferArgs: map[*ssa.Defer][]*Val{}, rangeOver: map[*ssa.Range]*Val{},
 		str2bytes: map[int]*Term{}, lockKeys: map[LeafKey][]lockUse{}, obligedAt: map[int][]*ssa.BasicBlock{}, localRefs: map[int]bool{}, globalsSeen: map[int]bool{}, boxed: map[int]*Val{}, varAll: map[string]map[ssa.Value]bool{}, univDone: map[string]bool{}, preConj: map[int]bool{}}
+	g.searchK = e.searchK
 	if g.con != nil && g.con.Trusted {
 		return &FuncResult{Name: fname, Contract: g.con}, nil
 	}
